@@ -182,6 +182,19 @@ theorem witness_remove_index_shift :
     (v.remove [.field [97], .index 0] false).2.get [.field [97], .index 1] ≠ v.get [.field [97], .index 1] := by
   decide
 
+/-- D_remove_index_shift through compaction: read-only recursive `.a[0].y`; `del(.a[0].x, compact: true)`
+    is accepted, empties element 0, compaction drops it and element 1 moves into `.a[0]`
+    (`[{"x":1},{"y":2}]`: `.a[0].y` was absent and is `2` afterwards; observed on the implementation). -/
+theorem witness_remove_compact_shift :
+    let cfg := [RO.mk false [.field [97], .index 0, .field [121]] true]
+    let v := Value.obj (.cons [97] (.arr (.cons (.obj (.cons [120] (.int 1) .nil))
+      (.cons (.obj (.cons [121] (.int 2) .nil)) .nil))) .nil)
+    isReadOnly cfg false [.field [97], .index 0, .field [120]] = false ∧
+    C18.diverge [.field [97], .index 0, .field [120]] [.field [97], .index 0, .field [121]] = true ∧
+    (v.remove [.field [97], .index 0, .field [120]] true).2.get [.field [97], .index 0, .field [121]]
+      ≠ v.get [.field [97], .index 0, .field [121]] := by
+  decide
+
 /-- why `remove_preserves` asks for unique keys along the preserved path: on the ill-formed model value
     `{a: {b: 1}, a: {c: 2}}` (duplicate key — no `BTreeMap` looks like this, `Sorted` is false)
     the compacting removal of `.a.b` uncovers the second `a`. -/
